@@ -52,7 +52,7 @@ class BuildError(Exception):
 
 
 def regen_tables():
-    rc, out = sh([sys.executable, os.path.join(VERIF, "tools", "extract_tables.py")])
+    rc, out = sh([sys.executable, os.path.join(VERIF, "tools", "extract_tables.py"), os.path.join(COQ, "Generated", "Tables.v")])
     if rc != 0:
         raise BuildError("tables:translator", out)
     return out.strip()
